@@ -2,7 +2,6 @@
 """
 This module provides the Base Property class.
 """
-import operator
 import uuid
 import warnings
 
@@ -783,7 +782,7 @@ class BaseProperty(base.BaseObject):
     def _reorder(self, childlist, new_index):
         lst = childlist
         # Refuse a position that is not an integer before anything is changed.
-        new_index = operator.index(new_index)
+        new_index = base.list_position(new_index, len(lst))
         old_index = lst.index(self)
 
         # Take the object out first, then insert it at the new position: this is also
